@@ -15,6 +15,10 @@ def configs(tier):
              "params": dict(size=0, senders=["A", "B"], receivers=["C", "D"], max_items=2)},
             {"mod": MOD, "cls": "StreamModel", "opts": o, "max_depth": 4,
              "params": dict(size=1, senders=["A", "B"], receivers=["C", "D"], max_items=3)},
+            # operations on closed clones while the other clone keeps the side open
+            {"mod": MOD, "cls": "StreamModel", "opts": {"pairs": False}, "max_depth": 5,
+             "params": dict(size=1, senders=["A", "B"], receivers=["C"], max_items=2,
+                            closing=True, closers=["C"])},
         ]
     out = []
     for size, mi in ((0, 3), (1, 3), (2, 4), ("inf", 3)):
